@@ -326,23 +326,23 @@ NOT_APPLICABLE = {}
 # from measured lane times so that a thorough run takes roughly 10-40 minutes on 16 cores.
 THOROUGH_REPS = {
     "C01": {"rel": 24, "dbg": 8, "asan": 6},
-    "C02": {"rel": 6, "dbg": 4, "asan": 3},
-    "C03": {"rel": 12, "dbg": 6, "asan": 4},
-    "C04": {"rel": 40, "dbg": 24, "asan": 8, "miri": 2, "mirirel": 2, "memcheck": 1},
-    "C05": {"rel": 1000, "dbg": 600, "asan": 300, "miri": 4, "mirirel": 4},
-    "C06": {"rel": 1000, "dbg": 600, "asan": 300, "miri": 4, "mirirel": 4},
-    "C07": {"rel": 60, "dbg": 30, "asan": 12},
+    "C02": {"rel": 12, "dbg": 8, "asan": 6},
+    "C03": {"rel": 36, "dbg": 18, "asan": 12},
+    "C04": {"rel": 120, "dbg": 72, "asan": 24, "miri": 2, "mirirel": 2, "memcheck": 1},
+    "C05": {"rel": 1500, "dbg": 900, "asan": 450, "miri": 4, "mirirel": 4},
+    "C06": {"rel": 2000, "dbg": 1200, "asan": 600, "miri": 4, "mirirel": 4},
+    "C07": {"rel": 360, "dbg": 180, "asan": 72},
     "C08": {"rel": 16, "dbg": 16, "asan": 4},
-    "C09": {"rel": 8, "nopf": 8, "dbg": 4, "asan": 3},
+    "C09": {"rel": 24, "nopf": 24, "dbg": 12, "asan": 9},
     "C10": {"rel": 8, "dbg": 4, "asan": 3},
-    "C11": {"rel": 16, "dbg": 8, "asan": 4},
-    "C12": {"rel": 100, "dbg": 50, "asan": 20, "miri": 3},
-    "C13": {"rel": 600, "dbg": 400, "miri": 4},
-    "C14": {"rel": 6, "dbg": 4},
+    "C11": {"rel": 32, "dbg": 16, "asan": 8},
+    "C12": {"rel": 300, "dbg": 150, "asan": 60, "miri": 3},
+    "C13": {"rel": 1800, "dbg": 1200, "miri": 4},
+    "C14": {"rel": 18, "dbg": 12},
     "C15": {"rel": 160, "dbg": 80},
-    "C16": {"rel": 20, "dbg": 10},
-    "C17": {"rel": 12, "dbg": 12, "miri": 6},
-    "C18": {"rel": 4, "tsan": 4},
+    "C16": {"rel": 40, "dbg": 20},
+    "C17": {"rel": 24, "dbg": 24, "miri": 6},
+    "C18": {"rel": 6, "tsan": 6},
     "C19": {"rel": 12, "dbg": 8},
 }
 for _p, _r in THOROUGH_REPS.items():
